@@ -781,7 +781,11 @@ func (r *vRunner) doMatch(o vOp) {
 	if o.Via != "" {
 		via = " via=" + o.Via
 	}
-	fmt.Fprintf(r.w, "op match api=%s h=%d test=%s pre=%s%s%s\n", o.API, o.H, vhex([]byte(name)), pre, jsonExtra, via)
+	form := ""
+	if o.Form != "" {
+		form = " form=" + o.Form // string | bytes | value: how the document was handed to the entry point
+	}
+	fmt.Fprintf(r.w, "op match api=%s h=%d test=%s pre=%s%s%s%s\n", o.API, o.H, vhex([]byte(name)), pre, jsonExtra, via, form)
 
 	before := r.sb.scan()
 	ev0 := vEvents()
